@@ -4,6 +4,8 @@ Workload: random well-formed XML over the SVG vocabulary and svgdx-looking conte
 (entity/char references, both quote kinds, namespaced attributes, PIs, doctype, CDATA, comments, CRLF) x
 configurations; nested variant: such a subtree embedded in an svgdx document.
 Oracle: expat event lists of input and output must be equal (attribute order free, CDATA = chars)."""
+import re
+
 from . import core, docgen, xmlcanon
 
 LEVEL = "exploration"
@@ -316,14 +318,34 @@ def check_case(ctx, case):
         if any(ev[0] == "start" and ev[2].get("data-verif-marker") == "1" for ev in got):
             acc.violation("specs-rendered", "specs-rendered", case, observed=core.trunc(r.out, 600), expected="content of <specs> absent")
     else:
-        if sub_list_index(got, exp) < 0:
+        # how many times the host renders the subtree itself (loop bodies render it once per pass); copies made by <reuse>
+        # may come on top, so this is a lower bound on the verbatim occurrences
+        want = case.get("copies", 1)
+        have, at = 0, 0
+        while True:
+            i = sub_list_index(got[at:], exp)
+            if i < 0:
+                break
+            have += 1
+            at += i + len(exp)
+        if have < want:
             # find the subtree root in the output for a useful diff
             idx = -1
             for i, ev in enumerate(got):
                 if ev[0] == "start" and ev[1] == "svg" and ev[2].get("data-verif-marker") == "1":
                     idx = i
                     break
+            if have:
+                # some copies are intact: describe the first one that is not
+                idx = -1
+                for i, ev in enumerate(got):
+                    if ev[0] == "start" and ev[1] == "svg" and got[i:i + len(exp)] != exp and (
+                            ev[2].get("data-verif-marker") == "1" or got[i + 1:i + len(exp)] == exp[1:]):
+                        idx = i
+                        break
             cls, d = ("subtree-missing", None) if idx < 0 else diff_signature(exp, got[idx:idx + len(exp)])
+            if have:
+                cls = "%d-of-%d-copies-intact:%s" % (have, want, cls)
             acc.violation("infoset-differs", "infoset:%s/%s" % (cls, variant), case,
                           observed=dict(first_difference=d, output=core.trunc(r.out, 800)), expected="subtree's event list contiguous in output",
                           what="nested namespaced <svg> changed: %s" % core.trunc(repr(d), 300))
@@ -338,6 +360,14 @@ def nested_doc(rng, sub, variant):
         return '<svg><rect xy="#later|h" wh="2"/><g>%s<rect xy="#later|v" wh="2"/></g><rect id="later" wh="4"/></svg>' % sub
     if variant == "specs":
         return '<svg><specs>%s</specs><rect wh="4"/></svg>' % sub
+    if variant == "loop":
+        return '<svg><rect wh="3"/><loop count="2">%s<rect xy="^|h 1" wh="2"/></loop></svg>' % sub
+    if variant == "loop-reuse":
+        # sub carries id="ico" here
+        return '<svg><loop count="2" loop-var="i">%s<reuse href="#ico" x="{{10 * $i}}"/></loop><rect wh="2"/></svg>' % sub
+    if variant == "forward-reuse":
+        # the group is attempted, fails on the forward reference, and is generated again once #later exists
+        return ('<svg><g>%s<reuse href="#ico" y="20"/><rect xy="#later|v" wh="2"/></g>\n<rect id="later" wh="4"/></svg>' % sub)
     if variant == "fragment":
         return '<rect wh="3"/>\n%s\n<rect xy="^|h" wh="3"/>' % sub
     if variant == "fragment-group":
@@ -372,10 +402,12 @@ def run_shard(ctx):
             if "nclip" in sattr:
                 # the subtree is self-contained: what its root refers to is defined inside it (and nowhere in the host)
                 inner = '<defs><clipPath id="nclip"><circle cx="5" cy="5" r="5"/></clipPath></defs>' + inner
+            variant = rng.choice(["top", "group", "forward", "specs", "fragment-group", "fragment", "loop", "loop-reuse", "forward-reuse"])
+            if variant.endswith("-reuse"):
+                sattr = re.sub(r' id="[^"]*"', "", sattr) + ' id="ico"'
             sub = '<svg xmlns="%s" data-verif-marker="1"%s>%s</svg>' % (SVGNS, sattr, inner)
-            variant = rng.choice(["top", "group", "forward", "specs", "fragment-group", "fragment"])
             doc2 = nested_doc(rng, sub, variant)
             check_case(ctx, dict(input=doc2.encode("utf-8"), subtree=sub.encode("utf-8"), cfg=docgen.gen_cfg(rng) if rng.random() < 0.5 else None,
-                                 feats=sorted(g2.feats | {"nested"}), variant=variant))
+                                 feats=sorted(g2.feats | {"nested"}), variant=variant, copies=2 if variant.startswith("loop") else 1))
             if j < 2:
                 acc.sample(dict(variant=variant, input=core.trunc(doc2, 500)))
